@@ -744,6 +744,16 @@ fn main() {
     for l in malformed_lines(&mut r, 150 * sc, 14 * sc) {
         lines.push((l, "malformed"));
     }
+    // every hand-picked hosts line once (leading dot, trailing dot, bare TLD, blanks of every kind,
+    // letters whose lower case is not ASCII, ...), not only when the random stream happens to pick it
+    for l in HOSTS_LINES {
+        lines.push((l.to_string(), "structured"));
+    }
+    // and hosts entries with a leading dot over the shared host universe: the entry names the
+    // sub-domains only (`||.host^`), the bare domain must stay unblocked
+    for h in gen::HOSTS.iter().take(6) {
+        lines.push((format!("{}.{}", r.pick(&["0.0.0.0 ", "127.0.0.1 ", ""]), h), "structured"));
+    }
     // list-metadata lines with a multi-byte character at every position of their value (the value
     // parsers slice by byte offsets: amounts, units, separators)
     for base in META_LINES.iter().filter(|l| l.starts_with("! ") && l.contains(": ")) {
